@@ -24,7 +24,7 @@ import (
 func init() {
 	core.Register(&core.Simple{
 		Id: "C18", Lvl: "exploration", Quick: 200, Thorough: 5000, PerBatch: 50, Width: 16, Timeout: 1500,
-		RuleText: "each case is a history of 15-35 news requests sent through the real connection loop (create bundle/category at nested paths, post, reply (mostly into categories, sometimes into bundles, which the server also accepts), delete article, delete item, read-only requests and article deletion on non-existent paths, reload of the live store and a second store opened on the file); titles 0..255 bytes, bodies up to ~60 KiB, names with YAML-significant text and high bytes; after every step the category listing of every model path, the article list of every category and get-article of every article are decoded by the reference decoder and compared with a reference news model implementing the stated linking rules. a stress batch has six sessions post twelve articles each into one category at the same moment (every acknowledged post must be listed once, under its own id, also in the file). distinct = multiset of operation kinds; non-trivial = history contains a post and a delete",
+		RuleText: "each case is a history of 15-35 news requests sent through the real connection loop (create bundle/category at nested paths, post, reply (mostly into categories, sometimes into bundles, which the server also accepts), delete article, delete item, read-only requests and article deletion on non-existent paths, replies to a non-existent article sent by a second client, reload of the live store and a second store opened on the file); titles 0..255 bytes, bodies up to ~60 KiB, names with YAML-significant text and high bytes; after every step the category listing of every model path, the article list of every category and get-article of every article are decoded by the reference decoder and compared with a reference news model implementing the stated linking rules. a stress batch has six sessions post twelve articles each into one category at the same moment (every acknowledged post must be listed once, under its own id, also in the file). distinct = multiset of operation kinds; non-trivial = history contains a post and a delete",
 		Case:     runCase,
 		Extra: func(tier string, seed int64) []core.Batch {
 			n := 6
@@ -267,7 +267,7 @@ func (w *world) doStep() bool {
 	r := w.c.R
 	cats := w.paths(3)
 	bundles := w.paths(2)
-	kind := core.Pick(r, []string{"new-bundle", "new-category", "new-category", "post", "post", "post", "reply", "reply", "delete-article", "delete-article", "delete-item", "ghost-read", "ghost-delete-article", "reload"})
+	kind := core.Pick(r, []string{"new-bundle", "new-category", "new-category", "post", "post", "post", "reply", "reply", "delete-article", "delete-article", "delete-item", "ghost-read", "ghost-delete-article", "ghost-reply", "reload"})
 	if len(cats) == 0 && (kind == "post" || kind == "reply" || kind == "delete-article") {
 		kind = "new-category"
 	}
@@ -396,6 +396,26 @@ func (w *world) doStep() bool {
 			return false
 		}
 		delete(w.find(p[:len(p)-1]).kids, p[len(p)-1])
+	case "ghost-reply":
+		// a reply to an article that is not there (deleted a moment ago by somebody else, say), sent by another client
+		// whose connection may be dropped for it: nothing may be stored, not even until the next reload
+		if len(cats) == 0 {
+			return true
+		}
+		p := core.Pick(r, cats)
+		missing := uint32(1000 + r.Intn(1000))
+		for id := range w.find(p).arts {
+			if id >= missing {
+				missing = id + 1 + uint32(r.Intn(50))
+			}
+		}
+		if g, err := refclient.LoginAs(w.srv, fmt.Sprintf("10.18.66.%d:%d", 1+w.step%250, 4000+w.step), "admin", "", "Ghost"); err == nil {
+			g.Send(410, pathField(p), rc.F(326, rc.U32(int(missing))), rc.FS(328, "reply to nothing"), rc.FS(327, "text/plain"), rc.FS(333, "orphan"))
+			g.Conn.WaitIdle(refclient.Watchdog)
+			g.Hangup()
+			w.srv.Quiesce(refclient.Watchdog)
+		}
+		w.log = append(w.log, fmt.Sprintf("another client replies to the non-existent article %d in %q", missing, p))
 	case "ghost-read":
 		p := []string{"no-such-" + w.genName()}
 		if len(bundles) > 1 && r.Bool() {
